@@ -278,9 +278,31 @@ def gauss_arg(c):
     return sp.csr_matrix(M) if st_ == "sparse" else M
 
 
+def superlu_reorders(c):
+    """trigger of the recorded finding KF-C04-sparse-cholesky-reordering, computed by the harness: cuqi's sparse Cholesky
+    work-around (utilities.sparse_cholesky) accepts a matrix only if SuperLU's row permutation is the identity, but SuperLU
+    post-orders the elimination tree even with natural column ordering, so some sparse SPD matrices are rejected"""
+    import scipy.sparse as sp
+    import scipy.sparse.linalg as spl
+    if c["structure"] != "sparse" or c["param"] not in ("cov", "prec") or c.get("true_size"):
+        return False
+    try:
+        M = gauss_arg(c)
+        n = M.shape[0]
+        for Q in (sp.csc_matrix(M), sp.csc_matrix(spl.inv(sp.csc_matrix(M)))):
+            LU = spl.splu(Q, diag_pivot_thresh=0, permc_spec="natural")
+            if not np.all(LU.perm_r == np.arange(n)):
+                return True
+    except Exception:
+        return False
+    return False
+
+
 def gauss_tags(c):
     t = {"param": c["param"], "structure": c["structure"], "switch": c["sparse_switch"] if not c.get("true_size") else "true_size",
          "scale_pow": c.get("scale_pow", 0)}
+    if superlu_reorders(c):
+        t["superlu_reorders"] = True
     if c["param"] in ("sqrtcov", "sqrtprec") and c["structure"] in ("dense", "sparse"):
         t["sqrt_kind"] = c["sqrt_kind"]
     return t
@@ -459,6 +481,8 @@ def run_reassign(c, rec):
         tags.update(param=s1["param"], structure=s2["structure"], structure_before=s1["structure"])
         if s1["param"] in ("sqrtcov", "sqrtprec") and s2["structure"] in ("dense", "sparse"):
             tags["sqrt_kind"] = s2["sqrt_kind"]
+        if superlu_reorders(s1) or superlu_reorders(s2):
+            tags["superlu_reorders"] = True
     if rec.classify(tags, True):
         return
     old = cuqi.config.MIN_DIM_SPARSE
